@@ -345,6 +345,10 @@ func main() {
 	if len(os.Args) > 1 {
 		repo = os.Args[1]
 	}
+	if len(os.Args) > 2 && os.Args[2] == "code" {
+		translateMain()
+		return
+	}
 	emit("-- GENERATED by /verif/extract from %s — do not edit; regenerated on every run.", "the /repo working tree")
 	emit("namespace Dtail.Facts\n")
 	facts()
